@@ -3,6 +3,7 @@ package transport
 import (
 	"bufio"
 	"context"
+	"errors"
 	"fmt"
 	"io"
 
@@ -311,6 +312,8 @@ func setStatus(cmdStatus map[plumbing.ReferenceName]error, firstErr *error, ref 
 	}
 }
 
+var errMissingObjects = errors.New("missing necessary objects")
+
 func referenceExists(s storer.ReferenceStorer, n plumbing.ReferenceName) (bool, error) {
 	_, err := s.Reference(n)
 	if err == plumbing.ErrReferenceNotFound {
@@ -336,6 +339,15 @@ func updateReferences(st storage.Storer, req *packp.UpdateRequests, cmdStatus ma
 		if err != nil {
 			setStatus(cmdStatus, firstErr, cmd.Name, err)
 			continue
+		}
+
+		// A reference must never point to an object the repository does not
+		// have (git: "missing necessary objects").
+		if cmd.Action() != packp.Delete {
+			if err := st.HasEncodedObject(cmd.New); err != nil {
+				setStatus(cmdStatus, firstErr, cmd.Name, errMissingObjects)
+				continue
+			}
 		}
 
 		switch cmd.Action() {
